@@ -193,7 +193,12 @@ def check_case(case) -> Obs:
         ntips = len(tips)
         if ntips <= 8:
             P = robotools.Labware("P", 8, 2, min_volume=0, max_volume=2000, initial_volumes=500)
-            wells = [f"{'ABCDEFGH'[i]}01" for i in range(ntips)]
+            if valid and distinct:
+                # wells in the same relative order as the tips, so that tip i serves its own well
+                rank = {n: k for k, n in enumerate(sorted(nums))}
+                wells = [f"{'ABCDEFGH'[rank[n]]}01" for n in nums]
+            else:
+                wells = [f"{'ABCDEFGH'[i]}01" for i in range(ntips)]
             vols = [10.0 + i for i in range(ntips)]
             for name in ("evo_aspirate", "evo_dispense"):
                 wl = robotools.EvoWorklist()
@@ -220,7 +225,8 @@ def check_case(case) -> Obs:
                     for slot in range(1, 9):
                         got = args[1 + slot]
                         if slot in order:
-                            want = vols[order.index(slot)] if ascending else None
+                            # the slot of tip i holds the volume that was given for tip i
+                            want = vols[nums.index(slot)] if distinct else None
                             if got.strip('"') == got or (want is not None and abs(float(got.strip('"')) - want) > 0.005):
                                 obs.bad("C10/evo-slot", f"{name}: tips={tips}: slot of tip {slot} holds {got}, expected \"{want}\"")
                         elif got != "0":
